@@ -29,6 +29,7 @@ def check(case, ctx):
     from xfab import structure
     M = SF.build(case)
     g = M.g
+    SF.classify(case, M, ctx)
     if GR.touch_sibling(g.no, g.choice):
         ctx.event("sibling-setting-used-first")
     tag = g.crystal_system
